@@ -231,5 +231,44 @@ func runProbes() probeResults {
 		s.Validate(&b)
 		r.SliceDefaultDeep = len(seen) == 2 && seen[0] == "a" && seen[1] == "a"
 	}
+	// ... for every shape of default: pointers, structs holding structs that hold slices, pointers to such
+	// structs. The default as the caller wrote it must read the same after two uses with an in-place write.
+	{
+		type Geo struct{ Tags []string }
+		type Stop struct {
+			Name string
+			Geo  Geo
+		}
+		type PStop struct {
+			Name string
+			Geo  *Geo
+		}
+		type Cell struct{ P *int }
+		geoSchema := func() *z.StructSchema { return z.Struct(z.Schema{"tags": z.Slice(z.String())}) }
+		x1, x2, x3 := 1, 2, 3
+		d1 := []*int{&x1}
+		d2 := []Stop{{Name: "n", Geo: Geo{Tags: []string{"north"}}}}
+		d3 := []PStop{{Name: "n", Geo: &Geo{Tags: []string{"north"}}}}
+		d4 := []Cell{{P: &x2}}
+		d5 := [][]*int{{&x3}}
+		ok := true
+		s1 := z.Slice(z.Ptr(z.Int())).Default(d1).PostTransform(func(ptr any, ctx z.Ctx) error { *(*ptr.(*[]*int))[0] = 99; return nil })
+		s2 := z.Slice(z.Struct(z.Schema{"name": z.String(), "geo": geoSchema()})).Default(d2).PostTransform(func(ptr any, ctx z.Ctx) error { (*ptr.(*[]Stop))[0].Geo.Tags[0] = "MUTATED"; return nil })
+		s3 := z.Slice(z.Struct(z.Schema{"name": z.String(), "geo": z.Ptr(geoSchema())})).Default(d3).PostTransform(func(ptr any, ctx z.Ctx) error { (*ptr.(*[]PStop))[0].Geo.Tags[0] = "MUTATED"; return nil })
+		s4 := z.Slice(z.Struct(z.Schema{"p": z.Ptr(z.Int())})).Default(d4).PostTransform(func(ptr any, ctx z.Ctx) error { *(*ptr.(*[]Cell))[0].P = 99; return nil })
+		s5 := z.Slice(z.Slice(z.Ptr(z.Int()))).Default(d5).PostTransform(func(ptr any, ctx z.Ctx) error { *(*ptr.(*[][]*int))[0][0] = 99; return nil })
+		for round := 0; round < 2; round++ {
+			var a1 []*int
+			var a2 []Stop
+			var a3 []PStop
+			var a4 []Cell
+			var a5 [][]*int
+			ok = ok && noPanic(func() { s1.Validate(&a1); s2.Validate(&a2); s3.Validate(&a3); s4.Validate(&a4); s5.Validate(&a5) })
+			ok = ok && x1 == 1 && x2 == 2 && x3 == 3 && d2[0].Geo.Tags[0] == "north" && d3[0].Geo.Tags[0] == "north"
+			// and the validated value is the default's value with the write applied to the COPY
+			ok = ok && len(a2) == 1 && a2[0].Geo.Tags[0] == "MUTATED" && len(a1) == 1 && *a1[0] == 99
+		}
+		r.SliceDefaultDeep = r.SliceDefaultDeep && ok
+	}
 	return r
 }
